@@ -287,6 +287,18 @@ func c12Feeder(name string, n int, hold bool) *e2x.Scenario { return c12FeederR(
 // c12FeederR: the first `rejects` datagrams are queries the default accept policy answers itself (QDCOUNT 2 →
 // FORMERR, opcode 3 → NOTIMP) without calling the handler: their receive buffers go back to the pool on another path.
 func c12FeederR(name string, n int, hold bool, rejects int) *e2x.Scenario {
+	var kinds []string
+	for j := 0; j < rejects; j++ {
+		kinds = append(kinds, []string{"formerr", "notimp"}[j%2])
+	}
+	return c12FeederK(name, n, hold, kinds)
+}
+
+// c12FeederK: the datagrams that never reach the handler are given by kind: "formerr" / "notimp" (answered by the
+// accept policy), "runt<k>" (k < 12 octets: reported to the invalid-message callback) — each leaves the read loop on
+// its own path, and each path hands its receive buffer back to the pool.
+func c12FeederK(name string, n int, hold bool, kinds []string) *e2x.Scenario {
+	rejects := len(kinds)
 	return &e2x.Scenario{Name: name, New: func() (func(), func(*vsched.Exec) (string, map[string]string)) {
 		sent := make([]string, n)
 		replies := map[string]string{}
@@ -322,13 +334,18 @@ func c12FeederR(name string, n int, hold bool, rejects int) *e2x.Scenario {
 			})
 			vsched.GoNamed("serve", func() { srv.ActivateAndServe() })
 			vsched.GoNamed("feeder", func() {
-				for j := 0; j < rejects; j++ {
+				for j, kind := range kinds {
 					q := c12Request(100 + j)
 					b, _ := q.Pack()
-					if j%2 == 0 {
+					switch {
+					case kind == "formerr":
 						b[5] = 2 // QDCOUNT 2 with one question: FORMERR
-					} else {
+					case kind == "notimp":
 						b[2] = b[2]&^0x78 | 3<<3 // opcode 3: NOTIMP
+					case strings.HasPrefix(kind, "runt"):
+						var k int
+						fmt.Sscanf(kind, "runt%d", &k)
+						b = b[:k] // shorter than a header
 					}
 					pc.Inject(b, fmt.Sprintf("rej%d", j))
 				}
@@ -403,6 +420,8 @@ func c12Spaces(c *fw.Ctx) {
 		{c12Feeder("e2/recycle/pc/2-datagrams", 2, false), 3, 5},      // b=5: 5.1 M, 138 s
 		{c12FeederR("e2/recycle/pc/rejected+2-datagrams-held", 2, true, 1), 2, 3},
 		{c12FeederR("e2/recycle/pc/2-rejected+2-datagrams", 2, false, 2), 1, 2},
+		{c12FeederK("e2/recycle/pc/runt+2-datagrams", 2, false, []string{"runt5"}), 2, 3},
+		{c12FeederK("e2/recycle/pc/2-runts+2-datagrams-held", 2, true, []string{"runt0", "runt11"}), 1, 2},
 		{c12Crosstalk("e2/crosstalk/pc/2-clients", "pc", 2, 0), 1, 2}, // b=2: 3.2 M, 45 s
 		{c12Crosstalk("e2/crosstalk/tcp/2-clients", "tcp", 2, 0), 0, 0},
 		{c12Crosstalk("e2/crosstalk/pc/3-clients", "pc", 3, 0), 0, 0},
